@@ -138,41 +138,115 @@ def children_mode(ctx, o, eff):
 
 
 def scope(ctx, o):
+    """every way _find_root can return is classified through expanded values and path conditions (so hoisted locals, guard
+    clauses, recursion or an upward loop are all the same to the rule):
+      jump     `<cursor>.wbs._root()`                        the WBS root task of an attached task
+      recurse  `_find_root(<cursor>.parent)`                 decided by the callee
+      top      `<cursor>` under `<cursor>.parent is None`    top of the tree; through the PUBLIC parent only under `wbs is None`
+    where a cursor is the parameter or a local that only ever holds the parameter / the parent of a cursor"""
     prog = ctx.prog
     f = prog.func('task._find_root')
     p = f.params[0]
-    cfg = cfg_of(f)
-    rets = [n for n in walk_no_nested(f.node) if isinstance(n, ast.Return)]
-    jump = None
-    for r in rets:
-        if match(f"{p}.wbs._root()", r.value) or match(f"{p}._Task__wbs._root()", r.value):
-            conds = facts.node_conditions(prog, f, r, ctx.typer, expand=False)
-            if any(match(f"{p}.wbs is not None", t) and q for t, q in conds) or any(match(f"{p}._Task__wbs is not None", t) and q for t, q in conds):
-                jump = r
-    raw_climb = any(isinstance(n, ast.Attribute) and n.attr == '_Task__parent' for n in ast.walk(f.node))
-    pub_climb = any(match(f"$x.parent", n) for n in ast.walk(f.node))
-    if jump is not None:
-        # the jump must come first: no return before it that is not conditioned on wbs None
-        first = min(rets, key=lambda r: r.lineno)
-        if first is jump or all(cfg.dominates(cfg.node_of(_if_of(f, jump)), cfg.node_of(r)) for r in rets if r is not jump):
-            o.site(f, jump, "attached task: the receiving tree is rooted at the WBS root task")
-        else:
-            o.refute(f, jump, jump, "the jump to the WBS root task is not taken on every path of an attached task")
-    elif raw_climb:
-        o.site(f, f.node, "climbs through the raw parent field (includes the WBS root task)")
-    elif pub_climb:
-        o.refute(f, f.node, '_find_root', "_find_root climbs through Task.parent, which hides the WBS root task: for an attached task the scope of "
-                                          "the id check is one top-level branch, not the WBS")
-    else:
-        o.undecided(f, f.node, '_find_root', "root search in an unrecognised form")
-    if pub_climb or raw_climb:
-        # the detached climb must reach the top: recursion / loop until parent is None
-        rec = any(match(f"_find_root($x.parent)", n) or match("_find_root($x._Task__parent)", n) for n in ast.walk(f.node))
-        loop = any(isinstance(n, ast.While) for n in ast.walk(f.node))
-        if rec or loop:
-            o.site(f, f.node, "detached task: climbs until there is no parent")
-        else:
-            o.refute(f, f.node, 'climb', "_find_root does not climb to the top of a detached tree")
+    fl = flow_of(f)
+    cfg = fl.cfg
+    ex = Expander(prog, f, ctx.typer, inline=False)
+    cursors = {p}
+
+    def cursor_expr(e):
+        if isinstance(e, ast.Name):
+            return e.id in cursors
+        if isinstance(e, ast.Attribute) and e.attr in ('parent', '_Task__parent'):
+            return cursor_expr(e.value)
+        return False
+    # greatest fixpoint (cursor = upper ; upper = cursor.parent define each other): start from every local, drop what has a
+    # definition that is not a cursor expression
+    cursors |= {d.var for d in fl.defs if '.' not in d.var and d.kind == 'assign'}
+    changed = True
+    while changed:
+        changed = False
+        for v in sorted(cursors - {p}):
+            ds = fl.defs_of(v)
+            if not (ds and all(d.kind == 'assign' and d.value is not None and cursor_expr(ex.expand(d.value, d.node)) for d in ds)):
+                cursors.discard(v)
+                changed = True
+    if any(d.kind != 'param' for d in fl.defs_of(p)) and not all(
+            d.kind == 'param' or (d.kind == 'assign' and d.value is not None and cursor_expr(ex.expand(d.value, d.node))) for d in fl.defs_of(p)):
+        o.undecided(f, f.node, '_find_root', f"the parameter `{p}` is overwritten with something that is not an ancestor of the given task")
+        return
+    cases = []          # (return stmt, value, [(test, pol)])
+    for r in [n for n in walk_no_nested(f.node) if isinstance(n, ast.Return)]:
+        rn = cfg.node_of(r)
+        if rn is None or not cfg.is_reachable(rn):
+            continue
+        conds = facts.node_conditions(prog, f, r, ctx.typer, expand=True)
+        v = ex.expand(r.value, rn) if r.value is not None else ast.Constant(value=None)
+        todo = [(v, conds)]
+        while todo:
+            v, cs = todo.pop()
+            if isinstance(v, ast.IfExp):
+                todo.append((v.body, cs + facts.split_conj(v.test, True)))
+                todo.append((v.orelse, cs + facts.split_conj(v.test, False)))
+            else:
+                cases.append((r, v, cs))
+    if not cases:
+        o.undecided(f, f.node, '_find_root', "root search in an unrecognised form (no return)")
+        return
+
+    def says(cs, pattern, want):
+        return any(facts.cond_is(t, q, pattern, want) is not None for t, q in cs)
+    for r, v, cs in cases:
+        m = match("$w._root()", v)
+        if m is not None:
+            w = m['w']
+            if isinstance(w, ast.Attribute) and w.attr in ('wbs', '_Task__wbs') and cursor_expr(w.value):
+                o.site(f, r, "attached task: the receiving tree is rooted at the WBS root task")
+            else:
+                o.undecided(f, r, r, f"`{src(v)[:60]}`: a root task of something the rule cannot relate to the given task")
+            continue
+        m = match("_find_root($x)", v)
+        if m is not None:
+            x = m['x']
+            if cursor_expr(x) and not isinstance(x, ast.Name):
+                o.site(f, r, "climbs to the parent and decides there (recursion)")
+            elif isinstance(x, ast.Name) and cursor_expr(x):
+                o.refute(f, r, r, "_find_root calls itself with the same task: no progress towards the root")
+            else:
+                o.undecided(f, r, r, f"recursion on `{src(x)[:60]}`, which the rule cannot relate to the given task")
+            continue
+        if cursor_expr(v):
+            c = src(v)
+            raw_top = says(cs, f"{c}._Task__parent is None", True)
+            pub_top = says(cs, f"{c}.parent is None", True)
+            det = says(cs, f"{c}.wbs is None", True) or says(cs, f"{c}._Task__wbs is None", True)
+            if raw_top:
+                o.site(f, r, "top of the tree through the raw parent field (the WBS root task for a member)")
+            elif pub_top and det:
+                o.site(f, r, "detached task: climbs until there is no parent")
+            elif pub_top:
+                o.refute(f, r, '_find_root', "_find_root climbs through Task.parent, which hides the WBS root task, and returns the top-level "
+                                            "task also for an ATTACHED task (no jump to task.wbs._root() on that path): the scope of the id "
+                                            "check is one top-level branch, not the WBS")
+            else:
+                known = all(_about_cursor(t, cursor_expr) for t, q in cs)
+                if known:
+                    o.refute(f, r, 'climb', f"_find_root returns `{c}` without having reached a task with no parent: it does not climb to "
+                                            f"the top of a detached tree")
+                else:
+                    o.undecided(f, r, r, f"`return {c}` under conditions the rule cannot interpret: " + ', '.join(facts.cond_texts(cs))[:120])
+            continue
+        o.undecided(f, r, r, f"_find_root returns `{src(v)[:60]}`: unrecognised form of the root search")
+
+
+def _about_cursor(t, cursor_expr) -> bool:
+    """the test only talks about wbs / parent of a cursor being (not) None"""
+    t, _ = facts.norm_cond(t, True)
+    m = match("$x is None", t)
+    if m is None:
+        return isinstance(t, ast.Constant)
+    x = m['x']
+    if isinstance(x, ast.Attribute) and x.attr in ('wbs', '_Task__wbs'):
+        return cursor_expr(x.value)
+    return cursor_expr(x)
 
 
 def _if_of(f, node):
@@ -184,82 +258,8 @@ def _if_of(f, node):
 
 
 def intersection(ctx, o):
-    prog = ctx.prog
-    f = prog.func('task._has_id_intersection')
-    par, chs = f.params[0], f.params[1]
-    ex = Expander(prog, f, ctx.typer, inline=False)
-    fl = flow_of(f)
-    cfg = fl.cfg
-    names = {}
-    for d in fl.defs:
-        if d.kind == 'assign' and d.value is not None:
-            names.setdefault(d.var, []).append(d)
-    # receiving tree
-    tree = None
-    for v, ds in names.items():
-        for d in ds:
-            vx = ex.expand(d.value, d.node)
-            if match(f"_collect_subtree(_find_root({par}))", vx):
-                tree = v
-                o.site(f, d.stmt, f"{v} = subtree of the root of the receiving task")
-    if tree is None:
-        o.refute(f, f.node, 'receiving tree', "the receiving tree is not _collect_subtree(_find_root(parent))")
-        return
-    # incoming
-    inc = None
-    for n in walk_no_nested(f.node):
-        if isinstance(n, ast.AugAssign) and isinstance(n.target, ast.Name) and match("_collect_subtree($c)", n.value):
-            fo = None
-            for m in walk_no_nested(f.node):
-                if isinstance(m, ast.For) and n in m.body:
-                    fo = m
-            if fo is not None and isinstance(fo.iter, ast.Name) and fo.iter.id == chs and same(fo.target, n.value.args[0]):
-                inc = n.target.id
-                o.site(f, n, f"{inc} += subtree of every given task")
-    if inc is None:
-        o.refute(f, f.node, 'incoming subtrees', "the subtrees of ALL given tasks are not collected")
-        return
-    txt = ' ; '.join(src(s) for s in f.body)
-    # identity filter
-    ident = [n for n in ast.walk(f.node) if isinstance(n, ast.Compare) and match("id($t) not in $s", n)]
-    by_id = [n for n in ast.walk(f.node) if isinstance(n, ast.Compare) and match("$t.id not in $s", n)]
-    if ident:
-        o.site(f, ident[0], "tasks already in the tree are recognised by object identity")
-    elif by_id:
-        o.refute(f, by_id[0], by_id[0], "tasks already in the tree are recognised by id: a foreign task with a member's id is taken for the member")
-    else:
-        o.refute(f, f.node, 'identity filter', "tasks that already belong to the receiving tree are not filtered out by object identity")
-    # duplicates among the incoming tasks
-    rets = [n for n in walk_no_nested(f.node) if isinstance(n, ast.Return)]
-    dup = False
-    for r in rets:
-        if isinstance(r.value, ast.Constant) and r.value.value is True:
-            conds = facts.node_conditions(prog, f, r, ctx.typer)
-            for t, p in conds:
-                if isinstance(t, ast.Compare) and isinstance(t.ops[0], (ast.NotEq, ast.Lt, ast.Gt)) and 'len(' in src(t) and p:
-                    dup = True
-    if dup:
-        o.site(f, f.node, "distinct incoming tasks with equal ids are rejected")
-    else:
-        o.refute(f, f.node, 'duplicates inside the argument', "two different incoming tasks with the same id are not detected (each is only compared "
-                                                              "with the receiving tree)")
-    # final intersection on exact ids
-    final = [r for r in rets if not isinstance(r.value, ast.Constant)]
-    okf = False
-    for r in final:
-        v = ex.expand(r.value, cfg.node_of(r))
-        m = match("len($a.intersection($b)) > 0", v) or match("len($a & $b) > 0", v) or match("bool($a & $b)", v) or \
-            match("not $a.isdisjoint($b)", v)
-        if m:
-            sa, sb = src(m['a']), src(m['b'])
-            if '.id' in sa and '.id' in sb and 'str(' not in sa + sb:
-                okf = True
-                o.site(f, r, "ids of tree and incoming tasks intersected exactly")
-            else:
-                o.refute(f, r, r, f"the intersection compares `{sa[:40]}` with `{sb[:40]}`, not the exact ids")
-                okf = True
-    if not okf:
-        o.refute(f, f.node, 'final intersection', "the function does not return whether the id sets intersect")
+    from .c05_util import check_intersection
+    check_intersection(ctx, o, ctx.prog.func('task._has_id_intersection'))
 
 
 def _search_loop(g, pid):
